@@ -599,6 +599,139 @@ func checkCompPack(rep *Reporter, c compCfg, content map[int]string) {
 	})
 }
 
+// refNestedComp: reference encoding of a bitmapped composite whose subfields are `p(s,N,ascii,ascii.2,nil,d)`
+// leaves or again bitmapped composites (prefix ascii.D, Binary / BytesToASCIIHex bitmap), written
+// from the layout alone: D decimal digits of the body length, the bitmap image of the set
+// subfield numbers, the set subfields in ascending order. ok=false: shape not supported;
+// representable=false: a set subfield lies beyond the bitmap or the body is too long (Pack must fail).
+func refNestedComp(spec, val *impl.Tree) (out []byte, representable, ok bool) {
+	if spec.Name != "c" || len(spec.Kids) < 3 || spec.Kids[2].Name != "b" || len(spec.Kids[2].Kids) != 3 ||
+		!strings.HasPrefix(spec.Kids[1].Name, "ascii.") || (val.Name != "c" && val.Name != "c()") {
+		return nil, false, false
+	}
+	maxLen, err1 := strconv.Atoi(spec.Kids[0].Name)
+	digits, err2 := strconv.Atoi(strings.TrimPrefix(spec.Kids[1].Name, "ascii."))
+	bl, err3 := strconv.Atoi(spec.Kids[2].Kids[0].Name)
+	benc := spec.Kids[2].Kids[1].Name
+	if err1 != nil || err2 != nil || err3 != nil || bl < 1 || (benc != "binary" && benc != "bytesToHex") {
+		return nil, false, false
+	}
+	subs := map[int]*impl.Tree{}
+	for _, k := range spec.Kids[3:] {
+		id, err := strconv.Atoi(k.Kids[0].Name)
+		if err != nil || strconv.Itoa(id) != k.Kids[0].Name {
+			return nil, false, false
+		}
+		subs[id] = k.Kids[1]
+	}
+	img := make([]byte, bl)
+	type kv struct {
+		id int
+		v  *impl.Tree
+	}
+	var set []kv
+	for _, k := range val.Kids {
+		if k.Name != "kv" || len(k.Kids) != 2 {
+			return nil, false, false
+		}
+		id, err := strconv.Atoi(k.Kids[0].Name)
+		if err != nil || subs[id] == nil {
+			return nil, false, false
+		}
+		set = append(set, kv{id, k.Kids[1]})
+	}
+	sort.Slice(set, func(i, j int) bool { return set[i].id < set[j].id })
+	representable = true
+	var body []byte
+	for _, e := range set {
+		if e.id < 1 || e.id > bl*8 {
+			representable = false
+			continue
+		}
+		img[(e.id-1)/8] |= 0x80 >> uint((e.id-1)%8)
+		sf := subs[e.id]
+		switch {
+		case sf.Name == "p" && len(sf.Kids) == 6 && sf.Kids[0].Name == "s" && sf.Kids[2].Name == "ascii" &&
+			sf.Kids[3].Name == "ascii.2" && sf.Kids[4].Name == "nil" && sf.Kids[5].Name == "d" && e.v.Name == "s" && len(e.v.Kids) == 1:
+			b, okh := impl.UnHex(e.v.Kids[0].Name)
+			n, _ := strconv.Atoi(sf.Kids[1].Name)
+			if !okh {
+				return nil, false, false
+			}
+			if len(b) > n || len(b) > 99 {
+				representable = false
+			}
+			body = append(body, []byte(fmt.Sprintf("%02d", len(b)))...)
+			body = append(body, b...)
+		case sf.Name == "c":
+			b, rep2, ok2 := refNestedComp(sf, e.v)
+			if !ok2 {
+				return nil, false, false
+			}
+			if !rep2 {
+				representable = false
+			}
+			body = append(body, b...)
+		default:
+			return nil, false, false
+		}
+	}
+	var head []byte
+	if benc == "bytesToHex" {
+		head = []byte(strings.ToUpper(hex.EncodeToString(img)))
+	} else {
+		head = img
+	}
+	body = append(append([]byte{}, head...), body...)
+	lim := 1
+	for i := 0; i < digits; i++ {
+		lim *= 10
+	}
+	if len(body) > maxLen || len(body) >= lim {
+		representable = false
+	}
+	return append([]byte(fmt.Sprintf("%0*d", digits, len(body))), body...), representable, true
+}
+
+// checkNestedCompPack: `F <bitmapped composite, possibly nested> pack <value>` against refNestedComp.
+func checkNestedCompPack(rep *Reporter, specS, valS string) {
+	line := fmt.Sprintf("F %s pack %s", specS, valS)
+	specT, ok1 := impl.ParseTree(specS)
+	valT, ok2 := impl.ParseTree(valS)
+	if !ok1 || !ok2 {
+		return
+	}
+	want, representable, ok := refNestedComp(specT, valT)
+	if !ok {
+		return
+	}
+	safely(rep, line, func() {
+		f, ok := impl.FieldOfTree(specT)
+		if !ok || !impl.SetValue(f, valT) {
+			return
+		}
+		packed, err := f.Pack()
+		key := ""
+		if err == nil {
+			key = line
+		}
+		rep.Case(key)
+		if !representable {
+			if err == nil {
+				rep.Viol("Composite.Pack succeeded although a bitmap can not represent a set subfield (or a length does not fit)", line, fmt.Sprintf("packed %x", packed))
+			}
+			return
+		}
+		if err != nil {
+			rep.Viol("Composite.Pack fails although every set subfield is representable", line, err.Error())
+			return
+		}
+		if !bytes.Equal(packed, want) {
+			rep.Viol("bitmap bits and body of a packed bitmapped composite disagree", line, fmt.Sprintf("packed %x, reference %x", packed, want))
+		}
+	})
+}
+
 // checkCompRepack: Pack, UnsetSubfield(drop), Pack again on ONE composite object gives the
 // bytes a fresh composite holding the remaining subfields packs to.
 func checkCompRepack(rep *Reporter, c compCfg, content map[int]string, drop int) {
@@ -937,6 +1070,13 @@ func genHistory(r *gen.Rng, c msgCfg, steps int) []histOp {
 }
 
 func runC05(t gen.Tier, r *gen.Rng, rep *Reporter) {
+	// N. bitmapped composites nested in bitmapped composites that share one bitmap definition
+	gen.ChannelMB(gen.Tier{Thorough: t.Thorough}, gen.NewRng(r.U64()), func(line string) {
+		f := strings.Split(line, " ")
+		if len(f) == 4 && f[0] == "F" && f[2] == "pack" && strings.HasPrefix(f[1], "c(999,ascii.3,b(") {
+			checkNestedCompPack(rep, f[1], f[3])
+		}
+	})
 	// A. the bit set: block sizes 0..16 x both modes x every index in 4 blocks (+ beyond), pairs, small sets
 	for bl := 0; bl <= 16; bl++ {
 		eff := effLen(bl)
@@ -1171,6 +1311,10 @@ func linesC05(lines []string, rep *Reporter) {
 		case len(t) == 4 && t[0] == "F" && t[2] == "pack":
 			c, ok := compCfgOfTree(t[1])
 			vt, ok2 := impl.ParseTree(t[3])
+			if !ok && ok2 {
+				checkNestedCompPack(rep, t[1], t[3])
+				continue
+			}
 			if !ok || !ok2 || (vt.Name != "c" && vt.Name != "c()") {
 				continue
 			}
